@@ -133,6 +133,51 @@ def norm_cmp(c, truth, left_pred):
     return (op, a, b)
 
 
+def outer_enters(p, pred, with_index=False):
+    """the calls (enter events) on a path that satisfy pred and are not made from inside another call that satisfies pred - wherever
+    they sit in the call tree (directly in the analysed function, in a private helper, in a closure of a combinator)"""
+    out, stack = [], []
+    for i, e in enumerate(p.events):
+        if e["ev"] == "enter" and pred(e):
+            if not stack:
+                out.append((i, e) if with_index else e)
+            stack.append(e["callee_fid"])
+        elif e["ev"] == "exit" and stack and e.get("callee_fid") == stack[-1]:
+            stack.pop()
+    return out
+
+
+def q_is(*suffixes):
+    return lambda e: (e["q"] or "").endswith(suffixes)
+
+
+IMPLIES = {"Lt": ("Lt", "Le", "Ne"), "Le": ("Le",), "Gt": ("Gt", "Ge", "Ne"), "Ge": ("Ge",), "Eq": ("Eq", "Le", "Ge"), "Ne": ("Ne",)}
+
+
+def established(facts, op, a, b):
+    """does a branch fact of the path state (in either operand order, positively or as a failed test) a relation between the
+    terms a and b that implies `a op b`?   facts: iterable of (cond, truth, ...)"""
+    for f in facts:
+        c, t = f[0], f[1]
+        if not (isinstance(c, tuple) and c[0] == "bin" and c[1] in FLIP) or t is None:
+            continue
+        for o, x, y in ((c[1], c[2], c[3]), (FLIP[c[1]], c[3], c[2])):
+            if x == a and y == b:
+                oo = o if t else NEG[o]
+                if op in IMPLIES[oo]:
+                    return True
+    return False
+
+
+def truth_of(facts, op, a, b):
+    """True / False if the path's branch facts decide `a op b` (either operand order, passed or failed test), else None"""
+    if established(facts, op, a, b):
+        return True
+    if established(facts, NEG[op], a, b):
+        return False
+    return None
+
+
 def is_len_of(field_path):
     def pred(t):
         return isinstance(t, tuple) and t[0] == "len" and t[1] == ("H", SELF, tuple(field_path) + ("map",))
